@@ -15,6 +15,17 @@ _LG.propagate = False
 _LG.addHandler(logging.NullHandler())
 
 
+def _silence_main_logger():
+    from pdb2pqr import main
+
+    main._LOGGER.setLevel(logging.CRITICAL + 1)
+    main._LOGGER.propagate = False
+    main._LOGGER.addHandler(logging.NullHandler())
+
+
+_silence_main_logger()
+
+
 def definition():
     """A fresh, unshared Definition (pipeline stages mutate shared reference
     objects, e.g. the PEPTIDE patch, so harness paths must not share one)."""
